@@ -91,7 +91,8 @@ where
         let start = SystemTime::now();
         let mut request = req;
         let enable_auth = self.app_share_data.sys_config.openapi_enable_auth;
-        let path = request.path();
+        // 使用与路由匹配一致的(已解码)路径判断，避免通过%编码路径前缀绕过鉴权
+        let path = request.match_info().as_str();
         let is_check_path = if enable_auth {
             (API_PATH.is_match(path) || R_NACOS_API_PATH.is_match(path))
                 && !IGNORE_PATH.contains(&path)
